@@ -352,7 +352,7 @@ def rule_check_schema(ctx, rid="R4.4b"):
     return rule_wiring(ctx, rid)
 
 
-def rule_validate_total(ctx, rid="R4.7"):
+def rule_validate_total(ctx, rid="R4.7", schemas_only=False):
     """jsonschema.validate on ANY JSON value offered as schema: the class-selection step runs before check_schema, so it must
     not raise anything of its own: whenever check_schema would raise, the caller is promised SchemaError."""
     from ..interp import Interp
@@ -363,7 +363,8 @@ def rule_validate_total(ctx, rid="R4.7"):
                       "offered as schema: selecting the class cannot raise on its own", floor=1)
     I = Interp(prog, "draft7")
     f = prog.func("validators.validate")
-    eff = run_entry(I, f, [ANY, ANY])
+    # C03 speaks about schemas that check_schema accepts (objects, and booleans from Draft 6 on); C04 about any JSON value
+    eff = run_entry(I, f, [ANY, I.schema_av if schemas_only else ANY])
     allowed = {"SchemaError", "ValidationError", "RefResolutionError", "UnknownType"}
     found = {}
     for x in eff:
@@ -405,3 +406,7 @@ def run(ctx):
     # only if nothing done elsewhere -- constructing another validator or resolver, with whatever arguments -- reaches into its resolver
     from .c18 import rule_per_validator_resolver
     rule_per_validator_resolver(ctx, "R4.8")
+    # R4.9: validate() and is_valid abandon the error iterator at its first element: it must not be kept in a local (the traceback of
+    # the raised error keeps the frame, the frame the suspended iterator, the iterator its scopes: the next call starts inside them)
+    from .c07 import rule_no_held_iterator
+    rule_no_held_iterator(ctx, "R4.9")
